@@ -50,7 +50,7 @@ func init() {
 	specs["C19"] = &propSpec{
 		id:    "C19",
 		level: "fault_enumeration",
-		rule: "one evaluation = one (*ir.Module).WriteTo call into a simulated io.Writer that accepts exactly k bytes and then fails (shape short: the failing Write accepts the bytes up to k and returns the injected error; shape fullerr: it accepts its whole argument and returns the error), or a healthy writer forwarding in chunks; the writer is a plain io.Writer or also an io.StringWriter / io.ByteWriter / io.ReaderFrom; calls come in episodes (eight failing writes at consecutive offsets and one healthy write on the same module object); a seeded concurrent phase runs 2-3 WriteTo calls on different modules as scheduler tasks, each into its own writer; " +
+		rule: "one evaluation = one (*ir.Module).WriteTo call into a simulated io.Writer that accepts exactly k bytes and then fails (shape short: the failing Write accepts the bytes up to k and returns the injected error; shape fullerr: it accepts its whole argument and returns the error), or a healthy writer forwarding in chunks; the writer is a plain io.Writer or also an io.StringWriter / io.ByteWriter / io.ReaderFrom / has failing Flush, Sync and Close methods; the error it returns is a plain value or one with Cause()/Unwrap() methods; in one step of eleven the failing Write panics with its error instead of returning it; calls come in episodes (eight failing writes at consecutive offsets and one healthy write on the same module object); a seeded concurrent phase runs 2-3 WriteTo calls on different modules as scheduler tasks, each into its own writer; " +
 			"oracle: bytes delivered are a prefix of the twin's String() of exactly the accepted length, returned n equals the accepted byte count, returned err is the injected error (identity), no Write call follows the failing one; without a fault bytes == String(), n == len, err == nil. " +
 			"distinct_nontrivial counts distinct (module, start state, shape, k, chunk) tuples; every offset k in [0, len(String())] is enumerated for the modules listed under counters",
 		simulated:              []string{"io.Writer argument of WriteTo (failure offset, failure shape, chunking, error identity)"},
